@@ -297,6 +297,12 @@ def run_case(case, obs):
                 net.register_evse(EVSE(s, max_rate=32), 208, angles[s])
                 ids.append(s)
                 obs.ev("op:register")
+        if step % 4 == 1:
+            from vlib.monitors import poke
+            poke(net, ChargingNetwork())
+            if model:
+                poke(net.constraints_as_df())
+            obs.ev("objects_printed_compared_hashed_between_operations")
         if not check(log[-1][0]):
             return
         # subset / period queries against the model product
